@@ -214,8 +214,10 @@ def check_roundtrip(case, ctx: Ctx):
                 check(cooler.Cooler(first).info["nnz"] == len(rows), "first creation from the loader lost pixels")
             finally:
                 ctx.clean(first)
-        call("create_cooler", cooler.create_cooler, uri, bins, px, ordered=True,
-             symmetric_upper=symmetric, h5opts=_h5opts(case["h5opts"]), **kw)
+        skw = {"symmetric_upper": symmetric}
+        if symmetric and case["junk"]:
+            skw = {}        # the documented default (symmetric-upper storage) is left to the library
+        call("create_cooler", cooler.create_cooler, uri, bins, px, ordered=True, h5opts=_h5opts(case["h5opts"]), **skw, **kw)
         clr = call("Cooler()", cooler.Cooler, uri)
 
         # -- pixel table --------------------------------------------------
